@@ -4,6 +4,7 @@ use std::io::{BufRead, Write};
 
 mod codec;
 mod entropy;
+mod matcher;
 mod prog;
 mod pure;
 mod ring;
@@ -25,6 +26,7 @@ fn main() {
         "codec" => codec::run_line,
         "xxh" => xxh::run_line,
         "entropy" => entropy::run_line,
+        "matcher" => matcher::run_line,
         _ => {
             eprintln!("usage: zh <pure> < cases");
             std::process::exit(2);
